@@ -107,7 +107,7 @@ func queueHistory(c *kit.Case, r *kit.Rand, size int, L int, sample bool) {
 
 func queueFamilies(t *testing.T) {
 	const b = 25
-	kit.Run(t, "C16", "queue-random", kit.N(40, 2000), func(c *kit.Case) {
+	kit.Run(t, "C16", "queue-random", kit.N(100, 2000), func(c *kit.Case) {
 		for h := 0; h < b && !c.Violated(); h++ {
 			size := kit.Choose(c.R, []int{1, 1, 2, 3, 4, 5, 7, 16, 64})
 			queueHistory(c, c.R, size, c.R.Range(10, 400), c.Index == 0 && h == 0)
@@ -178,7 +178,7 @@ func ringFamilies(t *testing.T) {
 		c.Sig(true, "ring-sweep", n)
 	})
 	const b = 25
-	kit.Run(t, "C16", "ring-random", kit.N(24, 1200), func(c *kit.Case) {
+	kit.Run(t, "C16", "ring-random", kit.N(60, 1200), func(c *kit.Case) {
 		r := c.R
 		for h := 0; h < b && !c.Violated(); h++ {
 			n := kit.Choose(r, []int{1, 2, 3, 4, 5, 8, 13})
@@ -462,7 +462,7 @@ func setHistory(c *kit.Case, r *kit.Rand, v setVariant, sample bool) {
 func setFamilies(t *testing.T) {
 	vs := setVariants()
 	const b = 24
-	kit.Run(t, "C16", "set-random", kit.N(40, 2000), func(c *kit.Case) {
+	kit.Run(t, "C16", "set-random", kit.N(120, 2400), func(c *kit.Case) {
 		for h := 0; h < b && !c.Violated(); h++ {
 			setHistory(c, c.R, vs[h%len(vs)], c.Index == 0 && h == 0)
 		}
